@@ -221,6 +221,15 @@ def stream_F(n, seed):
         add('qpara', fun_text(rng, 0, 14, '>\\ ab\n\n'))
         ind = '\n'.join(' ' * rng.randint(0, 4) + fun_text(rng, 0, 5, 'ab \t') for _ in range(rng.randint(1, 4)))
         add('indent', ind)
+        # the inline layer on its own: spans.render and macros.render with default definitions and two macros
+        import gen
+        mode = rng.choice([0, 0, 1, 2, 3, 5, 15])
+        m_val = rng.choice(['V', '*v*', '$1 and $2:d$', '', 'a|b', '<b>', '{n}', '$$1'])
+        n_val = rng.choice(['W', '`w`', '$1', '\\{m}'])
+        text = gen.inline_text(rng).replace('\r', ' ')
+        for fn in ('spans', 'macros'):
+            lines.append('F %s %d %s %s %s' % (fn, mode, enc_str(m_val), enc_str(n_val), enc_str(text)))
+            pyc.append({'kind': 'F', 'fn': fn, 'args': [str(mode), m_val, n_val, text]})
     return lines, pyc
 
 
@@ -229,6 +238,18 @@ def compare_F(mline, ires):
         return 'model: ' + mline
     if 'error' in ires:
         return 'impl: %r' % (ires,)
+    if 'o' in ires or mline.startswith('O ') or mline == 'F':
+        # spans / macros: output text and number of diagnostics; a model out of fuel is the interpreter's recursion limit
+        if mline == 'F':
+            return None if ires.get('x') == 'Recursion' else ('SKIP' if 'o' in ires else 'model out of fuel, impl %r' % (ires,))
+        if ires.get('x') == 'Recursion':
+            return 'SKIP'
+        if mline.startswith('X '):
+            return None if 'x' in ires else 'model raises %s, impl %r' % (mline[2:], ires)
+        if 'x' in ires:
+            return 'impl raises %s, model %r' % (ires['x'], mline[:80])
+        _, h, n = mline.split(' ')
+        return None if (dec_str(h), int(n)) == (ires['o'], ires['n']) else 'model %r impl %r' % ((dec_str(h), int(n)), (ires['o'], ires['n']))
     if mline.startswith('X '):
         # the model names the assertion of a content filter Filter
         return None if ires.get('x') in (mline[2:], {'Filter': 'ExAssert'}.get(mline[2:])) else 'model raises %s, impl %r' % (mline[2:], ires)
